@@ -737,3 +737,25 @@ fire('C03', 'pallet-class-level-list', 'C03.R5', 'Pallet',
 silent('C03', 'pallet-default-none-then-fresh',
        lambda p: {'helper/pallet.py': p.modules['helper/pallet.py'].src.replace('def __init__(self, id):', 'def __init__(self, id, items=None):').replace(
            'self.items = []', 'self.items = list(items) if items is not None else []')})
+
+# ============================================================================================ C12
+fire('C12', 'slotted-spacing-gate-removed', 'C12.R1', 'spacing-gate[non-empty belt]',
+     lambda p: M.replace_node(p, S_SLOT, 'BeltStore._do_reserve_put', M.if_testing('conveyor_entry_time'), lambda s: 'if True:' + s[s.index(':', s.index('self.delay')) + 1:]))
+fire('C12', 'slotted-spacing-against-first-item', 'C12.R1', 'spacing-gate[non-empty belt]',
+     lambda p: M.replace_node(p, S_SLOT, 'BeltStore._do_reserve_put', M.if_testing('conveyor_entry_time'), sub('self.items[-1][0]', 'self.items[0][0]')))
+fire('C12', 'continuous-spacing-against-first-item', 'C12.R1', 'spacing-gate[non-empty belt]',
+     lambda p: M.replace_node(p, S_BELT, 'BeltStore._do_reserve_put', M.if_testing('np.abs(time_on_belt'), sub('self.items[-1][0].length', 'self.items[0][0].length')))
+fire('C12', 'continuous-delay-without-capacity', 'C12.R2', 'continuous_conveyor.py::ConveyorBelt.put',
+     lambda p: M.replace_node(p, E_CC, 'ConveyorBelt.put', M.assign_to('delay'), 'delay = self.length / self.speed'))
+fire('C12', 'slotted-delay-one-slot-short', 'C12.R2', 'slotted_conveyor.py::ConveyorBelt.put',
+     lambda p: M.replace_node(p, E_SC, 'ConveyorBelt.put', M.assign_to('delay'), 'delay = (self.capacity - 1) * self.delay'))
+fire('C12', 'slotted-entry-stamp-missing', 'C12.R2', 'slotted_conveyor.py::ConveyorBelt.put',
+     lambda p: M.delete_stmt(p, E_SC, 'ConveyorBelt.put', M.assign_to('item.conveyor_entry_time')))
+fire('C12', 'belt-phase2-not-reduced-by-phase1', 'C12.R2', 'two-phase-travel',
+     lambda p: M.replace_node(p, S_BELT, 'BeltStore.move_to_ready_items', M.assign_to('phase2_time'), 'phase2_time = item[1]'))
+fire('C12', 'slot-phase2-skipped', 'C12.R2', 'two-phase-travel',
+     lambda p: M.replace_node(p, S_SLOT, 'BeltStore.move_to_ready_items', M.assign_to('remaining_phase2_time'), 'remaining_phase2_time = 0', which=0))
+fire('C12', 'continuous-delay-per-item-length', 'C12.R', 'continuous_conveyor.py::ConveyorBelt.put',
+     lambda p: M.replace_node(p, E_CC, 'ConveyorBelt.put', M.assign_to('delay'), 'delay = item.length * self.capacity / self.speed'))
+silent('C12', 'continuous-delay-commuted',
+       lambda p: M.replace_node(p, E_CC, 'ConveyorBelt.put', M.assign_to('delay'), 'delay = self.capacity * self.length / self.speed'))
